@@ -76,24 +76,29 @@ func thoroughExtras(root string, p *PropDef, o runOpts) map[string]any {
 		}(i, pf)
 	}
 	wg.Wait()
-	killed, missed, skipped := 0, 0, 0
+	killed, missed, skipped, silent, falseAlarm := 0, 0, 0, 0, 0
 	for _, r := range results {
 		switch r.Outcome {
 		case "killed":
 			killed++
 		case "missed":
 			missed++
+		case "silent":
+			silent++
+		case "false-alarm":
+			falseAlarm++
 		default:
 			skipped++
 		}
 	}
-	fmt.Printf("   mutant self-test: %d patches, %d killed, %d missed, %d skipped (not part of the verdict)\n", len(patches), killed, missed, skipped)
+	fmt.Printf("   mutant self-test: %d patches: %d killed, %d missed, %d skipped; behaviour-preserving variants: %d silent, %d false alarms (not part of the verdict)\n", len(patches), killed, missed, skipped, silent, falseAlarm)
 	for _, r := range results {
-		if r.Outcome != "killed" {
+		if r.Outcome != "killed" && r.Outcome != "silent" {
 			fmt.Printf("     %s: %s %s\n", r.Outcome, r.Patch, r.Reported)
 		}
 	}
-	return map[string]any{"mutants_run": len(patches), "mutants_killed": killed, "mutants_missed": missed, "mutants_skipped": skipped, "mutants": results}
+	return map[string]any{"mutants_run": len(patches), "mutants_killed": killed, "mutants_missed": missed, "mutants_skipped": skipped,
+		"benign_variants_silent": silent, "benign_variants_false_alarm": falseAlarm, "mutants": results}
 }
 
 func runMutant(exe, root, repo, prop, patch string) mutantResult {
@@ -132,6 +137,26 @@ func runMutant(exe, root, repo, prop, patch string) mutantResult {
 		}
 	}
 	res.Reported = strings.Join(rep, "; ")
+	if pb, e := os.ReadFile(patch); e == nil {
+		for _, ln := range strings.Split(string(pb), "\n") {
+			if strings.HasPrefix(ln, "# expect:") {
+				res.Expected = strings.TrimSpace(strings.TrimPrefix(ln, "# expect:"))
+			}
+		}
+	}
+	if res.Expected == "NONE" {
+		// behaviour-preserving variant: the rules must stay silent
+		switch {
+		case err == nil:
+			res.Outcome = "silent"
+		case len(rep) > 0:
+			res.Outcome = "false-alarm"
+		default:
+			res.Outcome = "skipped"
+			res.Reported = "analysis error: " + firstLine(out)
+		}
+		return res
+	}
 	if err != nil && len(rep) > 0 {
 		res.Outcome = "killed"
 	} else if err == nil {
